@@ -70,6 +70,7 @@ def plan(tier, seed):
     specs += [{'kind': 'intwide', 'word': w, 'seed': seed, 'random': 1500 if tier == 'quick' else 7000} for w in (3, 4, 8)]
     specs += [{'kind': 'bytes_and_bools', 'word': w} for w in (2, 3)]
     specs += [{'kind': 'arrays', 'word': 2 + (i % 3), 'part': i, 'parts': 4, 'seed': seed} for i in range(4)]
+    specs += [{'kind': 'constants', 'word': w} for w in (2, 3, 4)]
     specs += [{'kind': 'caller', 'word': w, 'seed': seed} for w in (2, 3, 4, 8)]
     return specs
 
@@ -139,6 +140,33 @@ def run_shard(spec):
         expect_run(res, INT_PROG, [str(v) for v in vals], 2, want, f'write(int) 16-bit shard {spec["part"]}', [runner.case_id('i16', v) for v in vals])
         res['exhaustive'] = True
         res['samples'].append({'write_int_16bit': vals[:6] + vals[-3:]})
+    elif k == 'constants':
+        # write(int) / writeln(int) of compile-time constants: literals (also beyond the word: the assembler wraps immediates,
+        # as upstream's writeln(32768) -> -32768 expects), const variables, folded expressions, byte and bool constants
+        word = spec['word']
+        bits = 8 * word
+        full, half = 1 << bits, 1 << (bits - 1)
+        wrap = lambda v: ((v + half) % full) - half         # noqa: E731
+        lits = sorted({0, 1, -1, 9, 10, -10, 99, 100, 12345, -12345, half - 1, -half, half, -half - 1, half + 1, full - 1, full, full + 1, -full, 3 * half, 3 * half + 7,
+                       -3 * half, 2 * full + 5, -2 * full - 5, 40000, -40000, 100000, -100000, 60000})
+        lines, want = [], bytearray()
+        for v in lits:
+            t = f'({v})' if v < 0 else str(v)
+            lines.append(f'write({t}); write(\' \'); writeln({t});')
+            want += str(wrap(v)).encode() + b' ' + str(wrap(v)).encode() + b'\n'
+        inr = [v for v in lits if -half <= v < half]
+        decls = []
+        for i, v in enumerate(inr[:12]):
+            decls.append(f'const int K{i} = {v};')
+            lines.append(f'write(K{i}); write(\' \'); write(K{i} + 0); write(\' \'); writeln(-(-K{i}));')
+            want += (str(v).encode() + b' ') * 2 + str(v).encode() + b'\n'
+        lines.append("write(2 + 3 * 4); write(' '); write(100 / 7); write(' '); write(-100 / 7); write(' '); write(-100 % 7); write(' '); writeln(7 - 7);")
+        want += b'14 14 -15 5 0\n'
+        lines.append("write('A' is int); write(' '); write(true is int); write(' '); write(('\\xff' is int) + 1); write(' '); write(false); write(' '); write('z'); writeln(true);")
+        want += b'65 1 256 false ztrue\n'
+        src = '\n'.join(decls) + '\nempty @is_you() {\n    ' + '\n    '.join(lines) + '\n}\n'
+        expect_run(res, src, [], word, bytes(want), f'write of compile-time constants, word {word}', [runner.case_id('const', word, v) for v in lits])
+        res['exhaustive'] = True
     elif k == 'intwide':
         r = random.Random(spec['seed'] * 31 + spec['word'])
         vals = int_values(8 * spec['word'], r, spec['random'])
